@@ -349,7 +349,7 @@ pub open spec fn g(&self) -> Graph { graph_of(self.dependencies@) }
 //@|    proof {
 //@|        assert(sorted@ == cfold(g, canon(g[name_s]), canon(g[name_s]).len() as int, old(sorted)@, visiting@));
 //@|    }
-//@ BEFORE `visiting.remove(type_name);`
+//@ AFTER `if let Some(deps) = self.dependencies.get(type_name)`
 //@|    let ghost sorted_mid = sorted@;
 //@|    let ghost visited_mid = visited@;
 //@|    let ghost visiting_mid = visiting@;
@@ -360,7 +360,7 @@ pub open spec fn g(&self) -> Graph { graph_of(self.dependencies@) }
 //@|            assert(self.dependencies@.contains_key(name_s));
 //@|        }
 //@|    }
-//@ AFTER `sorted.push(type_name.to_string());`
+//@ LAST
 //@|    proof {
 //@|        assert(visiting@ == old(visiting)@) by {
 //@|            assert(visiting_mid.remove(name_s) =~= old(visiting)@);
